@@ -262,6 +262,10 @@ void nan_case(Ctx& c, uint64_t idx) {
       } else if (!v[k].same(out0[k]) && !single_object && v[k].k != 'x' && !((v[k].k == 's' || v[k].k == 'z' || v[k].k == 'd') && v[k].nanmark())) {
         // did not move in 6 re-draws: look harder before calling it independent
         if (!confirmed) { a[ai] = keep; redraw_any(60); a[ai] = std::numeric_limits<double>::quiet_NaN(); confirmed = true; }
+        // "independent" is an inference from sampling: before it becomes a verdict, sample two orders of magnitude harder (an output
+        // such as the error term of Math::AngDiff is exactly 0 for whole families of arguments; the thorough tier met one case in
+        // 3.5 million where 180 samples all gave 0 -- a false alarm of this inference, repaired here)
+        if (!dep_any[k]) { a[ai] = keep; redraw_any(4000); a[ai] = std::numeric_limits<double>::quiet_NaN(); }
         if (dep_any[k]) { c.event("nan/structurally-dependent-output-changed"); if (false) { if (!v[k].nanmark()) c.viol("nan:C13/dependent-output-not-nan/" + e.name + "/arg" + std::to_string(ai) + "/out" + std::to_string(k), cls,
                  J().raw("args", jargs(e, a)).str("hexargs", hexargs(e, a)).raw("baseline", jvals(out0)).raw("with_nan", jvals(v)).i("ellipsoid", g_e)); } }
         else c.viol("nan:C13/independent-output-changed/" + e.name + "/arg" + std::to_string(ai) + "/out" + std::to_string(k), cls,
